@@ -287,18 +287,19 @@ def gen_cases(T, row, rng, quick):
     n = len(optional)
     if quick:
         masks = {(1 << n) - 1, 0}
-        while len(masks) < min(4, 1 << n):
+        while len(masks) < min(3, 1 << n):
             masks.add(rng.randrange(1 << n))
         masks = sorted(masks, reverse=True)
     else:
         masks = list(range((1 << n) - 1, -1, -1))
+        masks = masks + masks[1:]   # every subset twice (the second time with another size class / container variant)
     statics = [off for _, off in segs if off is not None]
     out = []
     for mi, mask in enumerate(masks):
         chosen = {optional[j] for j in range(n) if mask >> j & 1} | {app_i}
         inits = [0] + [o for o in statics if o > 0]
-        if quick and len(inits) > 2:
-            inits = [0] + rng.sample(inits[1:], 1 if mi else 2)
+        if quick and len(inits) > 1:
+            inits = ([0] + rng.sample(inits[1:], 1)) if mi == 0 else rng.sample(inits, 1)
         size_class = rng.choice(["size", "size", "1", "gap", "gap-1", "size-1"]) if mi else "size"
         variant = mi if mi < 4 else 4 + rng.randrange(100)
         spec = {}
@@ -430,10 +431,13 @@ def run_case(T, F, case, rowinfo, full_cache):
             fail(f"segment {kd['label']} overlaps another segment", o)
         cover[o:o + len(raw)] = b"\x01" * len(raw)
     if pat is not None:
-        fill = bytes([pat])
-        bad = next((k for k in range(len(data)) if not cover[k] and data[k] != pat), None) if data.count(fill) < len(data) - sum(cover) else None
-        if bad is not None:
-            fail("a gap byte does not hold the device's fill pattern", (bad, data[bad]), pat)
+        expected = bytearray(bytes([pat]) * len(data))
+        for kd, o, raw in present:
+            expected[o:o + len(raw)] = raw
+        if bytes(expected[:len(data)]) != data:
+            bad = next((k for k in range(len(data)) if not cover[k] and data[k] != pat), None)
+            if bad is not None:
+                fail("a gap byte does not hold the device's fill pattern", (bad, data[bad]), pat)
     # ---- the image that starts later is the tail of the full image
     key = (tuple(case["row"]), tuple(sorted(case["segs"].items())))
     if init == 0:
@@ -567,15 +571,35 @@ def feed(ck, s, drv, T, results):
                 s.compare(case, real, ans)
 
 
+def corpus_cases():
+    import json
+    p = os.path.join(os.path.dirname(os.path.dirname(os.path.dirname(os.path.abspath(__file__)))), "corpus", "C14", "cases.json")
+    try:
+        with open(p) as fh:
+            return [{k: v for k, v in c.items() if k != "why"} for c in json.load(fh)]
+    except OSError:
+        return []
+
+
 # ====================================================================================== entry points
+def _tick(ck, name, t0):
+    import time
+    ck.extra.setdefault("phase_seconds", {})[name] = round(time.time() - t0, 1)
+    return time.time()
+
+
 def setup(ck):
+    import time
     logging.disable(logging.CRITICAL)
+    t0 = time.time()
     ck.lean_obligations(generated=["BimgTables"])
     drv = ck.driver()
+    t0 = _tick(ck, "lean", t0)
     meta = ck.generated_meta.get("BimgTables")
     if meta is None:
         raise Infra("BimgTables meta missing")
     crosscheck(meta)
+    _tick(ck, "crosscheck", t0)
     ck.assume("segments are supplied as binary files (raw blocks); segments built from YAML configurations of MBI/HAB/AHAB/FCB/XMCD "
               "(length taken from the container object) are not modelled",
               "MasterBootImage.parse / HabContainer.parse / AHABImage.parse / find_offset_of_ahab / SB header validation / FCB.parse / "
@@ -646,8 +670,11 @@ def init_stream(ck, drv, T):
 
 def run(ck):
     import random
+    import time
     drv, T = setup(ck)
+    t0 = time.time()
     init_stream(ck, drv, T)
+    t0 = _tick(ck, "init_stream", t0)
     quick = ck.quick
     s = ck.stream("merge_parse", "every (family, revision, memory type) row x subsets of the optional segments (quick: all/none/2 random, thorough: "
                   "every subset) x init offsets (0 and static segment offsets, a rounded-up request, a request by segment name) x payload size classes "
@@ -658,6 +685,12 @@ def run(ck):
     s.exhaustive = False
     base_seed = ck.rng.getrandbits(64)
     by_family = {}
+    rowmap = {(r["family"], r["revision"], r["mem_type"]): r for r in T.rows}
+    # past failures first (corpus/C14/cases.json): each with its full-image sibling so that export(init) = export(0)[init:] is checked
+    for case in corpus_cases():
+        row = rowmap.get(tuple(case["row"]))
+        if row is not None and row["usable"]:
+            by_family.setdefault(row["family"], []).append((row, ([dict(case, init=0)] if case["init"] != 0 else []) + [case]))
     for idx, row in enumerate(T.rows):
         if not row["usable"]:
             continue
@@ -665,7 +698,9 @@ def run(ck):
         by_family.setdefault(row["family"], []).append((row, gen_cases(T, row, rng, quick)))
     tasks = sorted(by_family.items())
     results = evaluate(ck, T, tasks)
+    t0 = _tick(ck, "evaluate", t0)
     feed(ck, s, drv, T, results)
+    _tick(ck, "model", t0)
 
 
 def replay(ck, data):
